@@ -16,6 +16,10 @@ Definition shift (idx : list nat) (index : list range) : list nat :=
 Lemma shift_cons i idx f t index : shift (i :: idx) ((f, t) :: index) = (i + f) :: shift idx index.
 Proof. reflexivity. Qed.
 
+Lemma Forall2_weaken {X Y} (P Q : X -> Y -> Prop) l1 l2 :
+  (forall x y, P x y -> Q x y) -> Forall2 P l1 l2 -> Forall2 Q l1 l2.
+Proof. intros H HF. induction HF as [|x y l1 l2 Hxy HF IH]; constructor; auto. Qed.
+
 (* ---------- completeIndex ---------- *)
 
 Definition completeEntry (o : option range) (d : nat) : range :=
@@ -87,7 +91,7 @@ Proof.
     + rewrite Eo. cbn [obind]. exists (Vec out). split; [reflexivity|]. split.
       * cbn. split; [exact Hlo|]. apply Forall_nth_error. intros i y Hy.
         assert (Hi : i < t - f) by (rewrite <- Hlo; apply nth_error_Some; congruence).
-        assert (Hi : i < t - f). { rewrite <- Hlo. apply nth_error_Some. Show. congruence. }
+        destruct (Hn i Hi) as (y' & Ey' & _ & (row & _ & Hwy & _)). assert (y' = y) by congruence. subst y'. exact Hwy.
       * intros idx Hv. cbn [sizes map fst snd] in Hv.
         apply validIdx_cons in Hv as (i & rr & -> & Hi & Hr). rewrite shift_cons, !get_cons.
         destruct (Hn i Hi) as (y & Ey & _ & (row & Er & _ & Hg)). rewrite Ey, Er. apply Hg. exact Hr.
@@ -133,6 +137,10 @@ Proof.
     destruct H0 as [H0|H0]; [|exact H0]. inversion H0; subst. discriminate.
 Qed.
 
+Lemma sizes_pos (l : list range) (ds : list nat) :
+  Forall2 (fun r d => fst r < snd r /\ snd r <= d) l ds -> Forall (fun d => 0 < d) (sizes l).
+Proof. intros HF. induction HF as [|r0 d0 l l' H HF IH]; cbn; constructor; [lia|exact IH]. Qed.
+
 Lemma sizes_length index : length (sizes index) = length index.
 Proof. apply map_length. Qed.
 
@@ -145,10 +153,10 @@ Proof.
   intros [Hw Hp] Hok. pose proof (completeIndex_ok _ _ Hok Hp) as HF.
   unfold slice, copiedSliceOf.
   destruct (sliceData_spec (completeIndex index (dims t)) (dims t) (data t) Hw) as (d & Ed & Hwd & Hg).
-  - eapply Forall2_impl; [|exact HF]. cbn. intros r0 d0 H. lia.
+  - eapply Forall2_weaken; [|exact HF]. cbn. intros r0 d0 H. lia.
   - rewrite Ed. cbn [obind]. eexists. split; [reflexivity|]. cbn [dims data]. split; [reflexivity|].
     split; [|exact Hg]. split; cbn [dims data]; [exact Hwd|].
-    unfold sizes. apply Forall_map. clear -HF. induction HF as [|r0 d0 l l' H HF IH]; constructor; [lia|exact IH].
+    eapply sizes_pos; exact HF.
 Qed.
 
 (* slicing with the empty index copies the tensor (used by patch and concat) *)
@@ -191,7 +199,6 @@ Proof.
   destruct ds as [|d ds]; cbn; [split; [discriminate|tauto]|].
   rewrite andb_true_iff, IH.
   destruct ((f =? 0) && (t =? 0)) eqn:E; split; intros [H1 H2]; (split; [|exact H2]); try lia.
-  reflexivity.
 Qed.
 
 Lemma sliceRangesOk_length index : forall dsz, sliceRangesOk index dsz = true -> (length index <= length dsz)%nat.
@@ -289,4 +296,453 @@ Qed.
 
 Local Close Scope Z_scope.
 
+(* ---------- Patch ---------- *)
+
+(* idx lies inside the block [From_k, From_k + du_k) in every dimension *)
+Fixpoint inBlock (index : list range) (dus idx : list nat) : bool :=
+  match index, dus, idx with
+  | (f, _) :: index', du :: dus', i :: idx' => (f <=? i) && (i <? f + du) && inBlock index' dus' idx'
+  | _, _, _ => true
+  end.
+(* idx - From, component-wise *)
+Definition unshift (idx : list nat) (index : list range) : list nat :=
+  map (fun p => fst p - fst (snd p)) (combine idx index).
+
+Lemma unshift_cons i idx f t index : unshift (i :: idx) ((f, t) :: index) = (i - f) :: unshift idx index.
+Proof. reflexivity. Qed.
+
+(* the source block placed at the offsets fits into the target *)
+Fixpoint fits (index : list range) (dus dts : list nat) : Prop :=
+  match index, dus, dts with
+  | [], [], [] => True
+  | r :: index', du :: dus', dt :: dts' => fst r + du <= dt /\ fits index' dus' dts'
+  | _, _, _ => False
+  end.
+
+Lemma setNth_some {X} (l : list X) : forall i v, i < length l ->
+  exists l', setNth l i v = Some l' /\ length l' = length l /\ nth_error l' i = Some v /\
+             forall j, j <> i -> nth_error l' j = nth_error l j.
+Proof.
+  induction l as [|x l IH]; intros i v Hi; cbn in Hi; [lia|].
+  destruct i as [|i]; cbn [setNth].
+  - eexists. split; [reflexivity|]. split; [reflexivity|]. split; [reflexivity|].
+    intros j Hj. destruct j; [lia|reflexivity].
+  - destruct (IH i v ltac:(lia)) as (l' & E & Hl & Hn & Ho). rewrite E. cbn [obind].
+    eexists. split; [reflexivity|]. split; [cbn; lia|]. split; [exact Hn|].
+    intros j Hj. destruct j as [|j]; [reflexivity|]. cbn. apply Ho. lia.
+Qed.
+
+(* the row loop of copiedWithPatchOf.copyData, for an abstract row-patching function *)
+Lemma foldM_patch_rows (pd : nd A -> nd A -> option (nd A)) (f : nat) (Ps Pd : nd A -> Prop)
+      (Q : nd A -> nd A -> nd A -> Prop) :
+  (forall s d, Ps s -> Pd d -> exists n, pd s d = Some n /\ Pd n /\ Q s d n) ->
+  forall (srows : list (nd A)) (s : nat) (acc : list (nd A)),
+  Forall Ps srows -> Forall Pd acc -> s + length srows + f <= length acc ->
+  exists out,
+    foldM (fun (acc : list (nd A)) (ir : nat * nd A) =>
+             let '(i, srow) := ir in
+             do drow <- nth_error acc (i + f);
+             do nrow <- pd srow drow;
+             setNth acc (i + f) nrow)
+          (combine (seq s (length srows)) srows) acc = Some out
+    /\ length out = length acc /\ Forall Pd out
+    /\ (forall i, i < s + f \/ s + f + length srows <= i -> nth_error out i = nth_error acc i)
+    /\ (forall j srow, nth_error srows j = Some srow ->
+          exists drow nrow, nth_error acc (s + j + f) = Some drow /\ nth_error out (s + j + f) = Some nrow /\
+                            Q srow drow nrow).
+Proof.
+  intros Hpd. induction srows as [|srow srows IH]; intros s acc HPs HPd Hlen.
+  - cbn. exists acc. split; [reflexivity|]. split; [reflexivity|]. split; [exact HPd|]. split; [reflexivity|].
+    intros j srow Hj. destruct j; discriminate.
+  - inversion HPs as [|x l HPsrow HPs']; subst. cbn [length] in Hlen. cbn [length seq combine foldM].
+    destruct (nth_error_lt_some acc (s + f) ltac:(lia)) as (drow & Ed). rewrite Ed. cbn [obind].
+    pose proof (Forall_nth_error_inv _ _ _ _ HPd Ed) as HPdrow.
+    destruct (Hpd srow drow HPsrow HPdrow) as (nrow & En & HPn & HQ). rewrite En. cbn [obind].
+    destruct (setNth_some acc (s + f) nrow ltac:(lia)) as (acc' & Es & Hl' & Hn' & Ho'). rewrite Es. cbn [obind].
+    assert (HPd' : Forall Pd acc').
+    { apply Forall_nth_error. intros j y Hy. destruct (Nat.eq_dec j (s + f)) as [->|Hne].
+      - rewrite Hn' in Hy. inversion Hy; subst. exact HPn.
+      - rewrite Ho' in Hy by exact Hne. eapply Forall_nth_error_inv; eauto. }
+    destruct (IH (S s) acc' HPs' HPd' ltac:(lia)) as (out & Eo & Hlo & HPo & Hout & Hin).
+    exists out. split; [exact Eo|]. split; [lia|]. split; [exact HPo|]. split.
+    + intros i Hi. rewrite Hout by lia. apply Ho'. lia.
+    + intros j srow' Hj. destruct j as [|j]; cbn in Hj.
+      * inversion Hj; subst srow'. exists drow, nrow. replace (s + 0 + f) with (s + f) by lia.
+        split; [exact Ed|]. split; [|exact HQ]. rewrite Hout by lia. exact Hn'.
+      * destruct (Hin j srow' Hj) as (drow' & nrow' & Ha & Hb & Hc). exists drow', nrow'.
+        replace (s + S j + f) with (S s + j + f) by lia. split; [|split; assumption].
+        rewrite <- Ha. symmetry. apply Ho'. lia.
+Qed.
+
+Theorem patchData_spec : forall (index : list range) (dus dts : list nat) (src dst : nd A),
+  wfnd dus src -> wfnd dts dst -> fits index dus dts ->
+  exists r, patchData index src dst = Some r /\ wfnd dts r /\
+            forall idx, validIdx dts idx ->
+              get r idx = if inBlock index dus idx then get src (unshift idx index) else get dst idx.
+Proof.
+  induction index as [|[f t] index IH]; intros dus dts src dst Hws Hwd Hfit.
+  - destruct dus as [|du dus]; [|contradiction]. destruct dts as [|dt dts]; [|contradiction].
+    apply wfnd_nil in Hws as (a & ->). apply wfnd_nil in Hwd as (b & ->).
+    exists (Sc a). cbn. split; [reflexivity|]. split; [exact I|].
+    intros idx Hv. apply validIdx_nil in Hv; subst. reflexivity.
+  - destruct dus as [|du dus]; [contradiction|]. destruct dts as [|dt dts]; [contradiction|].
+    cbn [fits fst] in Hfit. destruct Hfit as [Hf Hfit].
+    apply wfnd_cons in Hws as (srows & -> & Hls & Hfs). apply wfnd_cons in Hwd as (drows & -> & Hld & Hfd).
+    cbn [patchData asV obind].
+    destruct (foldM_patch_rows (patchData index) f (wfnd dus) (wfnd dts)
+                (fun s d n => forall idx, validIdx dts idx ->
+                   get n idx = if inBlock index dus idx then get s (unshift idx index) else get d idx))
+      with (srows := srows) (s := 0) (acc := drows)
+      as (out & Eo & Hlo & HPo & Hout & Hin).
+    + intros s d Hs Hd. destruct (IH dus dts s d Hs Hd Hfit) as (n & En & Hwn & Hg). exists n. auto.
+    + exact Hfs.
+    + exact Hfd.
+    + lia.
+    + rewrite Eo. cbn [obind]. exists (Vec out). split; [reflexivity|]. split.
+      * cbn. split; [lia|exact HPo].
+      * intros idx Hv. apply validIdx_cons in Hv as (i & rr & -> & Hi & Hr).
+        cbn [inBlock]. rewrite unshift_cons, !get_cons.
+        destruct (f <=? i) eqn:E1; [destruct (i <? f + du) eqn:E2|]; cbn [andb].
+        -- apply Nat.leb_le in E1. apply Nat.ltb_lt in E2.
+           destruct (nth_error_lt_some srows (i - f) ltac:(lia)) as (srow & Es).
+           destruct (Hin (i - f) srow Es) as (drow & nrow & Ha & Hb & Hc).
+           replace (0 + (i - f) + f) with i in Ha, Hb by lia. rewrite Hb, Ha, Es.
+           rewrite (Hc rr Hr). reflexivity.
+        -- apply Nat.ltb_ge in E2. rewrite Hout by lia. reflexivity.
+        -- apply Nat.leb_gt in E1. rewrite Hout by lia. reflexivity.
+Qed.
+
+(* a validated patch index, on naturals: entries are (0,0) (= offset 0) or ranges of exactly the source's
+   extent that end inside the target *)
+Fixpoint patchIndexOk (index : list range) (dus dts : list nat) : Prop :=
+  match index, dus, dts with
+  | [], _, _ => True
+  | r :: index', du :: dus', dt :: dts' =>
+      (r = (0, 0) \/ (fst r + du = snd r /\ snd r <= dt)) /\ patchIndexOk index' dus' dts'
+  | _ :: _, _, _ => False
+  end.
+
+(* what completeIndex index (dims u) looks like for a validated patch: the exact region written *)
+Fixpoint region (ci : list range) (dus dts : list nat) : Prop :=
+  match ci, dus, dts with
+  | [], [], [] => True
+  | r :: ci', du :: dus', dt :: dts' => (fst r + du = snd r /\ snd r <= dt) /\ region ci' dus' dts'
+  | _, _, _ => False
+  end.
+
+Lemma completeIndex_region : forall dus dts, Forall2 le dus dts ->
+  forall index, patchIndexOk index dus dts -> region (completeIndex index dus) dus dts.
+Proof.
+  intros dus dts HF. induction HF as [|du dt dus dts Hle HF IH]; intros index Hok.
+  - destruct index as [|[f t] index]; exact I.
+  - destruct index as [|[f t] index]; cbn [completeIndex region].
+    + split; [cbn; lia|]. apply IH. exact I.
+    + cbn [patchIndexOk] in Hok. destruct Hok as [H0 Hok]. split; [|apply IH; exact Hok].
+      destruct ((f =? 0) && (t =? 0)) eqn:E; [cbn; lia|].
+      destruct H0 as [H0|H0]; [inversion H0; subst; discriminate|exact H0].
+Qed.
+
+Lemma region_fits : forall ci dus dts, region ci dus dts -> fits ci dus dts.
+Proof.
+  induction ci as [|r ci IH]; intros [|du dus] [|dt dts] H; cbn in *; try tauto.
+  destruct H as [[H1 H2] H]. split; [lia|apply IH; exact H].
+Qed.
+
+Theorem patch_spec (t u : T) (index : list range) :
+  wf t -> wf u -> Forall2 le (dims u) (dims t) -> patchIndexOk index (dims u) (dims t) ->
+  exists r, patch t index u = Some r /\ dims r = dims t /\ wf r /\
+            forall idx, validIdx (dims t) idx ->
+              get (data r) idx =
+              if inBlock (completeIndex index (dims u)) (dims u) idx
+              then get (data u) (unshift idx (completeIndex index (dims u)))
+              else get (data t) idx.
+Proof.
+  intros [Hwt Hpt] [Hwu _] Hle Hok. unfold patch. rewrite slice_nil by exact Hwt. cbn [obind].
+  destruct (patchData_spec (completeIndex index (dims u)) (dims u) (dims t) (data u) (data t) Hwu Hwt)
+    as (d & Ed & Hwd & Hg).
+  - apply region_fits. apply completeIndex_region; assumption.
+  - rewrite Ed. cbn [obind]. eexists. split; [reflexivity|]. cbn [dims data]. split; [reflexivity|].
+    split; [|exact Hg]. split; cbn [dims data]; assumption.
+Qed.
+
+(* slicing the patched region out again gives back the source *)
+Lemma region_complete : forall ci dus dts, region ci dus dts -> Forall (fun d => 0 < d) dus ->
+  completeIndex ci dts = ci.
+Proof.
+  induction ci as [|[f t] ci IH]; intros [|du dus] [|dt dts] H Hp; cbn in H; try tauto.
+  destruct H as [[H1 H2] H]. inversion Hp; subst. cbn [completeIndex fst snd] in *.
+  rewrite (IH dus dts H) by assumption.
+  destruct ((f =? 0) && (f + du =? 0)) eqn:E; [|reflexivity]. lia.
+Qed.
+
+Lemma region_sizes : forall ci dus dts, region ci dus dts -> sizes ci = dus.
+Proof.
+  induction ci as [|[f t] ci IH]; intros [|du dus] [|dt dts] H; cbn in H; try tauto.
+  destruct H as [[H1 H2] H]. cbn [sizes map fst snd] in *. fold (sizes ci). rewrite (IH dus dts H). f_equal. lia.
+Qed.
+
+Lemma region_ranges : forall ci dus dts, region ci dus dts ->
+  Forall2 (fun r d => fst r <= snd r /\ snd r <= d) ci dts.
+Proof.
+  induction ci as [|[f t] ci IH]; intros [|du dus] [|dt dts] H; cbn in H; try tauto; try (constructor; fail).
+  destruct H as [[H1 H2] H]. constructor; [cbn in *; lia|]. eapply IH; exact H.
+Qed.
+
+Lemma region_shift : forall ci dus dts, region ci dus dts -> forall idx, validIdx dus idx ->
+  validIdx dts (shift idx ci) /\ inBlock ci dus (shift idx ci) = true /\ unshift (shift idx ci) ci = idx.
+Proof.
+  induction ci as [|[f t] ci IH]; intros [|du dus] [|dt dts] H idx Hv; cbn in H; try tauto.
+  - apply validIdx_nil in Hv; subst. split; [constructor|]. split; reflexivity.
+  - destruct H as [[H1 H2] H]. apply validIdx_cons in Hv as (i & rr & -> & Hi & Hr).
+    destruct (IH dus dts H rr Hr) as (Ha & Hb & Hc). rewrite shift_cons. cbn [fst snd] in *. split.
+    + constructor; [lia|exact Ha].
+    + cbn [inBlock]. rewrite unshift_cons, Hb, Hc. split.
+      * assert (E1 : (f <=? i + f) = true) by (apply Nat.leb_le; lia).
+        assert (E2 : (i + f <? f + du) = true) by (apply Nat.ltb_lt; lia). rewrite E1, E2. reflexivity.
+      * f_equal. lia.
+Qed.
+
+Theorem slice_patch (t u r : T) (index : list range) :
+  wf t -> wf u -> Forall2 le (dims u) (dims t) -> patchIndexOk index (dims u) (dims t) ->
+  patch t index u = Some r -> slice r (completeIndex index (dims u)) = Some u.
+Proof.
+  intros Hwt Hwu Hle Hok Er. destruct (patch_spec t u index Hwt Hwu Hle Hok) as (r' & Er' & Hd & [Hwr _] & Hg).
+  rewrite Er in Er'. inversion Er'; subst r'. clear Er'.
+  pose proof (completeIndex_region _ _ Hle _ Hok) as Hreg. destruct Hwu as [Hwu Hpu].
+  unfold slice, copiedSliceOf. rewrite Hd. rewrite (region_complete _ _ _ Hreg Hpu). rewrite Hd in Hwr.
+  destruct (sliceData_spec _ _ _ Hwr (region_ranges _ _ _ Hreg)) as (d & Ed & Hwd & Hgd).
+  rewrite Ed. cbn [obind]. fold (sizes (completeIndex index (dims u))).
+  rewrite (region_sizes _ _ _ Hreg) in *. destruct u as [dsu xu]. cbn [dims data] in *.
+  f_equal. f_equal. apply (nd_ext A dsu); [exact Hwd|exact Hwu|]. intros idx Hv.
+  destruct (region_shift _ _ _ Hreg idx Hv) as (Ha & Hb & Hc).
+  rewrite (Hgd idx Hv), (Hg _ Ha), Hb, Hc. reflexivity.
+Qed.
+
+(* ---------- Patch at the public level ---------- *)
+
+Local Open Scope Z_scope.
+
+(* validatePatchIndexAgainstDims, declaratively: the source fits the target in every dimension (same rank),
+   every given range is (0,0) or a valid slice range of the target whose extent is the source's *)
+Fixpoint zpatchOk (index : list zrange) (dus dts : list nat) : Prop :=
+  match index, dus, dts with
+  | [], _, _ => True
+  | (f, t) :: index', du :: dus', dt :: dts' =>
+      ((f = 0 /\ t = 0) \/ (0 <= f /\ f < t /\ t <= Z.of_nat dt /\ t - f = Z.of_nat du))
+      /\ zpatchOk index' dus' dts'
+  | _ :: _, _, _ => False
+  end.
+
+Lemma srcFits_iff : forall dus dts : list nat,
+  ((length (map Z.of_nat dus) =? length (map Z.of_nat dts))%nat = true /\
+   srcFits (map Z.of_nat dus) (map Z.of_nat dts) = true) <-> Forall2 le dus dts.
+Proof.
+  induction dus as [|du dus IH]; intros [|dt dts]; cbn.
+  - split; [constructor|auto].
+  - split; [intros [H _]; discriminate|intros H; inversion H].
+  - split; [intros [H _]; discriminate|intros H; inversion H].
+  - rewrite andb_true_iff. split.
+    + intros [Hl [H1 H2]]. constructor; [lia|]. apply IH. split; assumption.
+    + intros H. inversion H as [|x y l l' Hxy H']; subst. apply IH in H' as [Ha Hb].
+      split; [exact Ha|]. split; [lia|exact Hb].
+Qed.
+
+Lemma zpatch_iff index : forall dus dts : list nat, length dus = length dts ->
+  (sliceRangesOk index (map Z.of_nat dts) = true /\ coversSrc index (map Z.of_nat dus) = true)
+  <-> zpatchOk index dus dts.
+Proof.
+  induction index as [|[f t] index IH]; intros dus dts Hl.
+  - cbn. tauto.
+  - destruct dus as [|du dus]; destruct dts as [|dt dts]; cbn in Hl; try discriminate.
+    + cbn. split; [intros [H _]; discriminate|tauto].
+    + cbn [sliceRangesOk coversSrc zpatchOk map]. rewrite <- (IH dus dts) by lia.
+      rewrite !andb_true_iff.
+      destruct ((f =? 0) && (t =? 0)) eqn:E; split.
+      * intros [[_ H1] [_ H2]]. split; [left; lia|tauto].
+      * intros [_ [H1 H2]]. tauto.
+      * intros [[H0 H1] [H2 H3]]. split; [right; lia|tauto].
+      * intros [[H0|H0] [H1 H2]]; [lia|]. split; (split; [lia|assumption]).
+Qed.
+
+Lemma validatePatch_iff index (dus dts : list nat) :
+  validatePatchIndexAgainstDims index (map Z.of_nat dus) (map Z.of_nat dts) = true
+  <-> Forall2 le dus dts /\ zpatchOk index dus dts.
+Proof.
+  unfold validatePatchIndexAgainstDims, validateSliceIndexAgainstDims. rewrite !andb_true_iff. split.
+  - intros [[[Hl Hf] [_ Hs]] Hc]. pose proof (proj1 (srcFits_iff dus dts) (conj Hl Hf)) as HF.
+    split; [exact HF|]. apply zpatch_iff; [|split; assumption].
+    clear -HF. induction HF; cbn; congruence.
+  - intros [HF Hz]. assert (Hlen : length dus = length dts) by (clear -HF; induction HF; cbn; congruence).
+    apply srcFits_iff in HF as [Hl Hf]. apply (zpatch_iff index dus dts Hlen) in Hz as [Hs Hc].
+    split; [split; [split; assumption|]|exact Hc]. split; [|exact Hs].
+    apply Nat.leb_le. apply sliceRangesOk_length. exact Hs.
+Qed.
+
+Lemma zpatchOk_nat index : forall dus dts, zpatchOk index dus dts -> patchIndexOk (rangesOf index) dus dts.
+Proof.
+  induction index as [|[f t] index IH]; intros dus dts H; cbn; [exact I|].
+  destruct dus as [|du dus]; [contradiction|]. destruct dts as [|dt dts]; [contradiction|].
+  cbn in H. destruct H as [H0 H]. split; [|apply IH; exact H].
+  cbn [fst snd]. destruct H0 as [[-> ->]|H0]; [left; reflexivity|right; lia].
+Qed.
+
+Theorem v_patch_spec (t u : T) (index : list zrange) : wf t -> wf u ->
+  (validatePatchIndexAgainstDims index (zdims u) (zdims t) = true ->
+     exists r, v_patch t index u = Ok r /\ dims r = dims t /\ wf r /\
+               forall idx, validIdx (dims t) idx ->
+                 get (data r) idx =
+                 if inBlock (completeIndex (rangesOf index) (dims u)) (dims u) idx
+                 then get (data u) (unshift idx (completeIndex (rangesOf index) (dims u)))
+                 else get (data t) idx)
+  /\ (validatePatchIndexAgainstDims index (zdims u) (zdims t) = false -> v_patch t index u = Err).
+Proof.
+  intros Hwt Hwu. unfold v_patch, guard. split; intros V; rewrite V; [|reflexivity].
+  apply validatePatch_iff in V as [HF Hz]. apply zpatchOk_nat in Hz.
+  destruct (patch_spec t u (rangesOf index) Hwt Hwu HF Hz) as (r & Er & H). rewrite Er.
+  exists r. split; [reflexivity|exact H].
+Qed.
+
+Corollary v_patch_ok_iff (t u : T) (index : list zrange) : wf t -> wf u ->
+  ((exists r, v_patch t index u = Ok r) <-> Forall2 le (dims u) (dims t) /\ zpatchOk index (dims u) (dims t))
+  /\ v_patch t index u <> Panic.
+Proof.
+  intros Hwt Hwu. destruct (v_patch_spec t u index Hwt Hwu) as [H1 H2]. rewrite <- validatePatch_iff.
+  fold (zdims t). fold (zdims u).
+  destruct (validatePatchIndexAgainstDims index (zdims u) (zdims t)) eqn:V.
+  - destruct (H1 eq_refl) as (r & Er & _). rewrite Er. split; [|discriminate]. split; [reflexivity|].
+    intros _. exists r; reflexivity.
+  - rewrite (H2 eq_refl). split; [|discriminate]. split; [intros (r & Er); discriminate|discriminate].
+Qed.
+
+(* public-level round trip: a successful Patch followed by Slice of the written region returns the source *)
+Corollary v_slice_patch (t u r : T) (index : list zrange) : wf t -> wf u ->
+  v_patch t index u = Ok r -> slice r (completeIndex (rangesOf index) (dims u)) = Some u.
+Proof.
+  intros Hwt Hwu Er. destruct (v_patch_ok_iff t u index Hwt Hwu) as [[Hiff _] _].
+  destruct (Hiff (ex_intro _ r Er)) as [HF Hz]. apply zpatchOk_nat in Hz.
+  apply (slice_patch t u r (rangesOf index) Hwt Hwu HF Hz).
+  unfold v_patch, guard in Er. destruct (validatePatchIndexAgainstDims index (zdims u) (zdims t)); [|discriminate].
+  destruct (patch t (rangesOf index) u) as [r'|]; cbn in Er; [|discriminate]. inversion Er; reflexivity.
+Qed.
+
+Local Close Scope Z_scope.
+
 End SliceP.
+
+(* ---------- examples: the hypotheses are satisfiable, the conclusions non-trivial ---------- *)
+Module SliceExamples.
+
+(* 3x4:  [[0;1;2;3];[10;11;12;13];[20;21;22;23]] *)
+Definition ex : tensor nat := mkT [3;4] (tab [3;4] (fun idx => match idx with [i;j] => 10 * i + j | _ => 0 end)).
+(* 2x2 source block *)
+Definition eu : tensor nat := mkT [2;2] (Vec [Vec [Sc 100; Sc 101]; Vec [Sc 110; Sc 111]]).
+
+Lemma wf_ex : wf ex. Proof. split; cbn; repeat constructor. Qed.
+Lemma wf_eu : wf eu. Proof. split; cbn; repeat constructor. Qed.
+
+Example completeIndex_ex : completeIndex [(0,0); (1,3)] [2;3;4] = [(0,2); (1,3); (0,4)].
+Proof. reflexivity. Qed.
+
+Example sliceData_ex : sliceData [(1,3); (2,4)] (data ex) = Some (Vec [Vec [Sc 12; Sc 13]; Vec [Sc 22; Sc 23]]).
+Proof. vm_compute. reflexivity. Qed.
+Example sliceData_hyp : Forall2 (fun r d => fst r <= snd r /\ snd r <= d) [(1,3); (2,4)] [3;4].
+Proof. repeat constructor. Qed.
+(* outside the hypotheses the data layer panics *)
+Example sliceData_oob : sliceData [(1,4); (2,4)] (data ex) = None.
+Proof. vm_compute. reflexivity. Qed.
+
+Example sliceIndexOk_ex : sliceIndexOk [(1,3)] (dims ex).
+Proof. cbn. split; [right; lia|exact I]. Qed.
+Example slice_ex : slice ex [(1,3)] = Some (mkT [2;4] (Vec [Vec [Sc 10; Sc 11; Sc 12; Sc 13]; Vec [Sc 20; Sc 21; Sc 22; Sc 23]])).
+Proof. vm_compute. reflexivity. Qed.
+Example slice_get_ex : exists r, slice ex [(0,0); (1,3)] = Some r /\ dims r = [3;2] /\ get (data r) [2;1] = Some 22.
+Proof.
+  destruct (slice_spec ex [(0,0); (1,3)] wf_ex) as (r & Er & Hd & _ & Hg).
+  - cbn. split; [left; reflexivity|]. split; [right; lia|exact I].
+  - exists r. split; [exact Er|]. split; [exact Hd|]. rewrite Hg by (rewrite Hd; repeat constructor). reflexivity.
+Qed.
+
+Example v_slice_ex : v_slice ex [(1,3); (2,4)]%Z = Ok (mkT [2;2] (Vec [Vec [Sc 12; Sc 13]; Vec [Sc 22; Sc 23]])).
+Proof. vm_compute. reflexivity. Qed.
+Example v_slice_err1 : v_slice ex [(2,1)]%Z = Err.          Proof. vm_compute. reflexivity. Qed.
+Example v_slice_err2 : v_slice ex [(0,4)]%Z = Err.          Proof. vm_compute. reflexivity. Qed.
+Example v_slice_err3 : v_slice ex [(-1,2)]%Z = Err.         Proof. vm_compute. reflexivity. Qed.
+Example v_slice_err4 : v_slice ex [(0,0);(0,0);(0,0)]%Z = Err. Proof. vm_compute. reflexivity. Qed.
+Example zsliceOk_ex : zsliceOk [(1,3); (2,4)]%Z (dims ex).
+Proof. cbn. split; [right; lia|]. split; [right; lia|exact I]. Qed.
+
+Example v_at_ex : v_at ex [2; 3]%Z = Ok 23.   Proof. vm_compute. reflexivity. Qed.
+Example v_at_err1 : v_at ex [3; 0]%Z = Err.   Proof. vm_compute. reflexivity. Qed.
+Example v_at_err2 : v_at ex [-1; 0]%Z = Err.  Proof. vm_compute. reflexivity. Qed.
+Example v_at_err3 : v_at ex [1]%Z = Err.      Proof. vm_compute. reflexivity. Qed.
+Example v_at_hyp : Forall2 (fun i d => 0 <= i /\ i < Z.of_nat d)%Z [2; 3]%Z (dims ex).
+Proof. repeat constructor; cbn; lia. Qed.
+
+Example patchData_ex :
+  patchData [(1,3); (2,4)] (data eu) (data ex)
+  = Some (Vec [Vec [Sc 0; Sc 1; Sc 2; Sc 3]; Vec [Sc 10; Sc 11; Sc 100; Sc 101]; Vec [Sc 20; Sc 21; Sc 110; Sc 111]]).
+Proof. vm_compute. reflexivity. Qed.
+Example fits_ex : fits [(1,3); (2,4)] (dims eu) (dims ex).
+Proof. cbn. lia. Qed.
+(* a block that does not fit makes the data layer panic *)
+Example patchData_oob : patchData [(2,4); (2,4)] (data eu) (data ex) = None.
+Proof. vm_compute. reflexivity. Qed.
+
+Example patchIndexOk_ex : patchIndexOk [(1,3)] (dims eu) (dims ex).
+Proof. cbn. split; [right; lia|exact I]. Qed.
+Example patch_ex :
+  patch ex [(1,3)] eu
+  = Some (mkT [3;4] (Vec [Vec [Sc 0; Sc 1; Sc 2; Sc 3]; Vec [Sc 100; Sc 101; Sc 12; Sc 13]; Vec [Sc 110; Sc 111; Sc 22; Sc 23]])).
+Proof. vm_compute. reflexivity. Qed.
+Example patch_get_ex : exists r, patch ex [(1,3)] eu = Some r /\ get (data r) [2;1] = Some 111 /\ get (data r) [2;2] = Some 22.
+Proof.
+  destruct (patch_spec ex eu [(1,3)] wf_ex wf_eu) as (r & Er & _ & _ & Hg).
+  - repeat constructor.
+  - exact patchIndexOk_ex.
+  - exists r. split; [exact Er|]. split; rewrite Hg by (repeat constructor); reflexivity.
+Qed.
+
+Example v_patch_ex :
+  v_patch ex [(1,3); (2,4)]%Z eu
+  = Ok (mkT [3;4] (Vec [Vec [Sc 0; Sc 1; Sc 2; Sc 3]; Vec [Sc 10; Sc 11; Sc 100; Sc 101]; Vec [Sc 20; Sc 21; Sc 110; Sc 111]])).
+Proof. vm_compute. reflexivity. Qed.
+Example v_patch_err1 : v_patch ex [(1,2)]%Z eu = Err.        Proof. vm_compute. reflexivity. Qed.   (* extent 1 <> 2 *)
+Example v_patch_err2 : v_patch ex [(2,4)]%Z eu = Err.        Proof. vm_compute. reflexivity. Qed.   (* ends outside *)
+Example v_patch_err3 : v_patch eu []%Z ex = Err.             Proof. vm_compute. reflexivity. Qed.   (* source larger *)
+Example zpatchOk_ex : Forall2 le (dims eu) (dims ex) /\ zpatchOk [(1,3); (2,4)]%Z (dims eu) (dims ex).
+Proof. split; [repeat constructor|]. cbn. split; [right; lia|]. split; [right; lia|exact I]. Qed.
+
+Example slice_patch_ex : forall r, patch ex [(1,3)] eu = Some r -> slice r (completeIndex [(1,3)] (dims eu)) = Some eu.
+Proof.
+  intros r. apply (slice_patch ex eu r [(1,3)] wf_ex wf_eu); [repeat constructor|exact patchIndexOk_ex].
+Qed.
+Example slice_patch_compute :
+  (do r <- patch ex [(1,3)] eu; slice r (completeIndex [(1,3)] (dims eu))) = Some eu.
+Proof. vm_compute. reflexivity. Qed.
+
+(* NOT true with the caller's raw index when a range is omitted and the source is smaller: the omitted
+   range means [0, du) for Patch but [0, dt) for Slice (this is the root of the Patch-backward defect D4) *)
+Example slice_patch_raw_index_refuted :
+  exists (t u : tensor nat) index r, wf t /\ wf u /\ Forall2 le (dims u) (dims t) /\
+    patchIndexOk index (dims u) (dims t) /\ patch t index u = Some r /\ slice r index <> Some u.
+Proof.
+  exists ex, eu, [(1,3)]. eexists. split; [exact wf_ex|]. split; [exact wf_eu|]. split; [repeat constructor|].
+  split; [exact patchIndexOk_ex|]. split; [exact patch_ex|]. vm_compute. discriminate.
+Qed.
+
+End SliceExamples.
+
+Print Assumptions completeIndex_spec.
+Print Assumptions sliceData_spec.
+Print Assumptions slice_spec.
+Print Assumptions slice_nil.
+Print Assumptions v_slice_spec.
+Print Assumptions v_slice_ok_iff.
+Print Assumptions v_at_spec.
+Print Assumptions v_at_ok_iff.
+Print Assumptions patchData_spec.
+Print Assumptions patch_spec.
+Print Assumptions v_patch_spec.
+Print Assumptions v_patch_ok_iff.
+Print Assumptions slice_patch.
+Print Assumptions v_slice_patch.
